@@ -198,3 +198,53 @@ pub fn method<'a>(im: &'a syn::ItemImpl, name: &str) -> Option<&'a syn::ImplItem
 pub fn trait_path(im: &syn::ItemImpl) -> String {
     im.trait_.as_ref().map(|t| crate::sem::canon_path(&t.1)).unwrap_or_default()
 }
+
+
+/// dynamic part of the canonical naming: fields that share their type with a sibling are told apart by dataflow
+/// (which DeriveEntry bounds come from the trait's own arguments; which slot `get(op)` returns; which parsed
+/// argument a Flag field is initialised from)
+pub fn init_dynamic_canon(ix: &Index) -> Vec<String> {
+    let mut problems = Vec::new();
+    match crate::bounds::entry_fields(ix) {
+        Ok((this, common)) => { ix.set_canon("DeriveEntry", &this, "bounds_this"); ix.set_canon("DeriveEntry", &common, "bounds_common"); }
+        Err(e) => problems.push(e),
+    }
+    // comparison slots
+    let ev = mk_ev(ix);
+    if let Some(getf) = ix.fns.values().flatten().find(|f| f.self_ty.as_deref() == Some("HelperAttributesForCompareOp") && crate::misc::sig_text(f).contains("CompareOp") && crate::misc::sig_text(f).contains("->&HelperAttributeForCompareOp")).cloned() {
+        for (ti, tn) in crate::refmodel::TRAITS.iter().enumerate() {
+            let o = ev.call_fn(St::new(), &getf, Some(Val::Sym { ty: Ty::Named("HelperAttributesForCompareOp".into(), vec![]), path: "cmp".into() }), vec![Val::Enum { ty: "CompareOp".into(), var: tn.to_string(), args: vec![] }]);
+            if let Some(p) = o.into_iter().find_map(|(_, fl)| if let Flow::Val(Val::Sym { path, .. }) = fl { path.strip_prefix("cmp.").map(|x| x.to_string()) } else { None }) {
+                ix.set_canon("HelperAttributesForCompareOp", &p, crate::refmodel::ATTRS[ti]);
+            } else { problems.push(format!("slot of {tn} not found")); }
+        }
+    } else { problems.push("accessor (op) -> &HelperAttributeForCompareOp not found".into()); }
+    // Flag fields: the parsed argument each is initialised from
+    for owner in ["HelperAttributeForCompareOp", "HelperAttributeForDebug"] {
+        let Some(sd) = ix.structs.get(owner) else { continue };
+        let flags: Vec<String> = sd.fields.iter().filter(|(_, t)| crate::index::ty_str(t) == "Flag").map(|(n, _)| n.clone()).collect();
+        if flags.len() < 2 { continue; }
+        let Some(f) = ix.fns.values().flatten().find(|f| f.self_ty.as_deref() == Some(owner) && crate::misc::sig_text(f).contains("&[Attribute]") && crate::misc::sig_text(f).contains("Result<")).cloned() else { problems.push(format!("parser of {owner} not found")); continue };
+        let mut ev = mk_ev(ix);
+        if let Some(ps) = ix.get_fn("parse_single") { ev.stops.push((ps.qual.clone(), "ret")); }
+        let args: Vec<Val> = f.sig.inputs.iter().filter_map(|i| if let syn::FnArg::Typed(t) = i { Some(if crate::index::ty_str(&t.ty).contains("CompareOp") { Val::Enum { ty: "CompareOp".into(), var: "Ord".into(), args: vec![] } } else { Val::Sym { ty: Ty::Slice(Box::new(Ty::Named("Attribute".into(), vec![]))), path: "attrs".into() } }) } else { None }).collect();
+        let outs = ev.call_fn(St::new(), &f, None, args);
+        for (_, fl) in &outs {
+            let v = match fl { Flow::Val(v) | Flow::Ret(v) => v, _ => continue };
+            v.any(&|x| {
+                if let Val::Struct { name, fields } = x {
+                    if name == owner {
+                        for (fname, fv) in fields {
+                            if !flags.contains(fname) { continue; }
+                            if let Val::Sym { path, .. } = fv { if let Some(arg) = path.rsplit('.').next() { if arg.chars().all(|c| c.is_alphanumeric() || c == '_') { CANON_PAIRS.with(|c| c.borrow_mut().push((owner.to_string(), fname.clone(), arg.to_string()))); } } }
+                        }
+                    }
+                }
+                false
+            });
+        }
+    }
+    for (o, f, a) in CANON_PAIRS.with(|c| std::mem::take(&mut *c.borrow_mut())) { ix.set_canon(&o, &f, &a); }
+    problems
+}
+thread_local! { static CANON_PAIRS: std::cell::RefCell<Vec<(String, String, String)>> = Default::default(); }
